@@ -51,6 +51,29 @@ def ident_spellings(words):
     return [s for s in spellings(words) if s.isidentifier() and not s.startswith('_') and not s.endswith('_')]
 
 
+SEPARATORS = ['.', ':', '+', '@', '~', '%', '!', ',']       # characters that are NOT word separators of the statement
+
+
+def near_spellings(words, rng, k=3):
+    """names that are NOT spellings of the key: they equal it (after lowering) only once a character other than '_' / '-'
+    is deleted - dotted / colon-separated / plus-joined names (Java properties, docker-compose and systemd exports), the
+    same in upper case, mixed with the real separators, and a foreign character put anywhere inside a real spelling"""
+    out = []
+    for _ in range(k):
+        sep = rng.choice(SEPARATORS)
+        x = rng.random()
+        if x < 0.4 and len(words) > 1:
+            s = sep.join(words)
+        elif x < 0.6 and len(words) > 2:
+            s = words[0] + sep + rng.choice(['_', '-']).join(words[1:])
+        else:
+            s = rng.choice(spellings(words))
+            at = rng.randint(0, len(s))
+            s = s[:at] + sep + s[at:]
+        out.append(rng.choice([s, s, s.upper(), s.title()]))
+    return out
+
+
 def clean(s):
     return s.replace('-', '').replace('_', '').lower()
 
@@ -451,6 +474,7 @@ class Gen:
         stems = rng.sample(STEMS, rng.choice([1, 2, 2, 3]))
         ncls = rng.choice([1, 1, 2, 3])
         classes, pool = [], []
+        near = rng.random() < 0.5            # half of the histories hold near-miss variable names (foreign characters)
         custom = ['CUSTOM_A', 'other', 'Third-Name']
         named = []                           # (field name, words) used so far: later classes re-use some (like-named fields)
         for _ in range(ncls):
@@ -481,6 +505,11 @@ class Gen:
                 pool += spellings(split_prefix(p) + words)
                 pool += [p + name, (p + name).upper(), to_snake_ref(p + name), to_snake_ref(p + name).upper()]
                 pool += [p + s for s in spellings(words)[:4]]
+                if near:
+                    # variables that differ from a spelling of the (prefixed) field by a character that is no separator
+                    pool += near_spellings(split_prefix(p) + words, rng, rng.choice([1, 2, 3]))
+                    if p:
+                        pool += [p + s for s in near_spellings(words, rng, 1)]
             cls = {'fields': fields, 'prio': prio}
             if rng.random() < 0.5:
                 cls['prio_explicit'] = True
@@ -641,6 +670,9 @@ class Gen:
             how = rng.choice(['exact', 'exact', 'exact', 'cleaned', 'absent'])
             if how != 'absent':
                 env[spell(f, how)] = self.tok('o')
+        for f in fields:
+            if not f.get('explicit') and rng.random() < 0.3:       # a near-miss name: present throughout, never a source
+                env[near_spellings(split_prefix(p) + f['words'], rng, 1)[0]] = self.tok('o')
         osenv = [[k, v] for k, v in env.items()]
         ops = []
 
@@ -942,6 +974,9 @@ def evaluate(ctx, i, case, res, quirks, reqs, pend):
             ctx.count('inst_cached')
         last_win.update(dict(o['state']['cleaned'] or []))
     ctx.seen('history', case, nontrivial=True)
+    names = [k for k, _ in case['os']] + [k for c in case['files'] + case['dirs'] for k, _ in c] + [op['k'] for op in case['ops'] if op['t'] == 'set']
+    if any(re.search(r'[^A-Za-z0-9_-]', k) for k in names):
+        ctx.count('history_with_near_miss_names')
     if collide:
         ctx.count('history_with_cleaned_collision')
     reqs.append(model_request(case, outs, quirks))
@@ -973,6 +1008,9 @@ def run(ctx: C.Ctx):
                 'cut at the failing field), dotenv files / secrets directories edited between instantiations (files of a '
                 'Meta.env_file excepted), the same _env_file selection passed repeatedly, and a failure-then-recovery family '
                 '(ParseError / MissingVars, repair spelled at any lookup tier, re-instantiation of the class and its sibling). '
+                'Half of the random histories (and a third of the recovery ones) also hold NEAR-MISS variable names: spellings of '
+                'the (prefixed) field with a character that is no separator of the statement (. : + @ ~ % ! ,) between the words or '
+                'anywhere inside, in assorted casings, in os.environ / dotenv files / secrets dirs - they must never be a source. '
                 'Values are PRESENT BUT EMPTY in half of the histories (os.environ, dotenv `KEY=`, empty secrets file, keyword), and an '
                 'explicit-mapping family maps most fields to 1-3 variables whose values are empty about half of the time. '
                 'CONVERSION (c18_conv.py): Dict / DefaultDict / TypedDict / nested-dataclass / Optional[Dict] fields fed from os.environ, a '
